@@ -425,6 +425,10 @@ def _restore_attrs_on_error(obj: Any, only_if: bool = True):
     the assignments performed inside the context raises, the attributes
     already assigned (and anything they invalidated) are put back.
     """
+    if getattr(getattr(obj, "__spec_class__", None), "do_not_copy", False):
+        # Instances of `do_not_copy` classes are never copied: every helper
+        # edits them in place, whether or not `_inplace` was asked for.
+        only_if = True
     state = getattr(obj, "__dict__", None) if only_if else None
     saved = dict(state) if isinstance(state, dict) else None
     try:
